@@ -73,6 +73,23 @@ func compareFinalize(a, b *abci.ResponseFinalizeBlock) string {
 // ReplicasWanted makes every new Sim attach that many replicas (used by the determinism property).
 var ReplicasWanted = 0
 
+// ReplicasCold makes every replica restart (fresh process-local state, state reloaded from its store) before each
+// block it executes, so that it never shares the primary's execution history.
+var ReplicasCold = false
+
+func (s *Sim) coldReplica(i int) error {
+	r := s.Replicas[i]
+	if !ReplicasCold || r.App.LastBlockHeight() == 0 {
+		return nil // nothing committed yet: a restart would lose the InitChain state
+	}
+	n2, err := r.Restart()
+	if err != nil {
+		return fmt.Errorf("replica restart: %w", err)
+	}
+	s.Replicas[i] = n2
+	return nil
+}
+
 func NewSim(spec GenesisSpec) (*Sim, error) {
 	s, err := newSim(spec)
 	if err != nil {
@@ -202,7 +219,11 @@ func (s *Sim) Exec(b Block, txs [][]byte, process bool) (*StepResult, error) {
 		return res, fmt.Errorf("FinalizeBlock height %d: %w", b.Height, err)
 	}
 	res.Resp = resp
-	for i, r := range s.Replicas {
+	for i := range s.Replicas {
+		if err := s.coldReplica(i); err != nil {
+			return res, err
+		}
+		r := s.Replicas[i]
 		rr, err := r.Finalize(res.Req)
 		if err != nil {
 			return res, &DivergenceError{Detail: fmt.Sprintf("replica %d FinalizeBlock failed at height %d: %v", i, b.Height, err)}
@@ -265,7 +286,11 @@ func (s *Sim) ExecTwin(b Block, txsWithout, txsWith [][]byte) (*TwinResult, erro
 	res.With = r2
 	res.DumpWith = s.Node.DumpStores(s.Node.FinalizeCtx())
 	s.Node.Eng.TakeLog()
-	for i, r := range s.Replicas {
+	for i := range s.Replicas {
+		if err := s.coldReplica(i); err != nil {
+			return res, err
+		}
+		r := s.Replicas[i]
 		rr, err := r.Finalize(b.FinalizeReq(txsWith, s.Chain.NextVals.Hash()))
 		if err != nil {
 			return res, &DivergenceError{Detail: fmt.Sprintf("replica %d FinalizeBlock failed at height %d: %v", i, b.Height, err)}
